@@ -844,6 +844,10 @@ type c17Gen struct {
 	// []*T, map[string][]*T; pointers to named number types) and documents whose slices / maps hold 2-3 DISTINCT
 	// entries, so that aliasing between entries shows
 	ptrs bool
+	// big: percentage of slices that get 150-400 elements (documents of several KB: anything that truncates, chunks or
+	// reuses buffers by size shows only there); never nested
+	big   int
+	inBig bool
 }
 
 // ptrWrap: in ptrs mode any value type may become *T or **T.
@@ -1150,13 +1154,22 @@ func (g *c17Gen) docFor(t *c17Ty, mut int, nulls bool) *c17Doc {
 		if g.ptrs {
 			n = r.Pick(2, 2, 3, 3, 1, 0)
 		}
+		bigHere := false
+		if g.big > 0 && !g.inBig && r.Intn(100) < g.big {
+			n, bigHere, g.inBig = r.Range(150, 400), true, true
+		}
 		d := &c17Doc{kind: "arr"}
 		for i := 0; i < n; i++ {
 			if nulls && r.Chance(1, 6) {
 				d.arr = append(d.arr, &c17Doc{kind: "null"})
+			} else if bigHere {
+				d.arr = append(d.arr, g.docFor(t.elem, mut/8, nulls))
 			} else {
 				d.arr = append(d.arr, g.distinctDoc(t.elem, mut, nulls, d.arr))
 			}
+		}
+		if bigHere {
+			g.inBig = false
 		}
 		return d
 	case "%":
@@ -1682,6 +1695,25 @@ func c17GenSections(r *verifh.Rng) []verifh.Section {
 			}
 			t = &c17Ty{kind: "{", fields: []c17Field{{name: "Items", key: g.r.PickS("", "items", "Items"), ty: ft}}}
 		}
+		if i%16 == 5 || i%16 == 12 {
+			// directed shape for LARGE documents: a slice (of scalars / small structs / maps) next to ordinary fields
+			var el *c17Ty
+			switch g.r.Intn(4) {
+			case 0:
+				el = &c17Ty{kind: "s"}
+			case 1:
+				el = &c17Ty{kind: g.r.PickS("i", "f64", "u16")}
+			case 2:
+				el = g.structTy(0, false)
+			default:
+				el = &c17Ty{kind: "%", elem: &c17Ty{kind: "i"}}
+			}
+			t = &c17Ty{kind: "{", fields: []c17Field{
+				{name: "Items", key: g.r.PickS("", "items", "Items"), ty: &c17Ty{kind: "@", elem: el}},
+				{name: "Name", key: g.r.PickS("", "name", "Name"), ty: &c17Ty{kind: "s"}},
+				{name: "Limit", key: "limit", optional: true, ty: &c17Ty{kind: "i"}}}}
+			g.big = 40
+		}
 		ops := []string{"type " + t.enc()}
 		nd := g.r.Range(4, 9)
 		for j := 0; j < nd; j++ {
@@ -1697,7 +1729,9 @@ func c17GenSections(r *verifh.Rng) []verifh.Section {
 			}
 			ops = append(ops, fmt.Sprintf("load %d %s %s", g.r.Intn(16), d.enc(), d2))
 		}
-		// documents with keys that collide up to case
+		// documents with keys that collide up to case (loaded 200 times each: no large documents here)
+		bigPct := g.big
+		g.big = 0
 		for j := 0; j < 2; j++ {
 			d := g.docFor(t, 0, false)
 			for d.kind != "obj" {
@@ -1707,6 +1741,7 @@ func c17GenSections(r *verifh.Rng) []verifh.Section {
 				ops = append(ops, fmt.Sprintf("cload %d %s", g.r.Intn(16), d.enc()))
 			}
 		}
+		g.big = bigPct
 		// the file-level API: a SEQUENCE of loads in one process with different option sets (UseEnv on / off
 		// alternating, every API incl. the LoadFrom*Bytes loaders that take no options): an option of one call
 		// must not reach a later call
@@ -1732,7 +1767,7 @@ func c17GenSections(r *verifh.Rng) []verifh.Section {
 					envOn = !envOn
 				}
 				if envOn {
-					env = 1
+					env = g.r.Pick(1, 1, 1, 2) // 2 = UseEnv() given twice
 				}
 			}
 			ext := g.r.PickS(c17Exts...)
@@ -1761,7 +1796,20 @@ func c17GenSections(r *verifh.Rng) []verifh.Section {
 			for d.kind != "obj" {
 				d = g.docFor(t, 0, nulls)
 			}
-			ops = append(ops, fmt.Sprintf("munm %d %d %s", bits, g.r.Intn(16), d.enc()))
+			lst := ""
+			if bits != 0 && g.r.Chance(1, 3) {
+				lst = "r" // the same options as a list in reverse order, each one twice
+			}
+			ops = append(ops, fmt.Sprintf("munm %d%s %d %s", bits, lst, g.r.Intn(16), d.enc()))
+			if g.r.Chance(1, 2) {
+				// the reader entry points with every behaviour of the caller's io.Reader
+				ops = append(ops, fmt.Sprintf("mrd %s %d %d %s", g.r.PickS(c17ReaderModes...), bits, g.r.Intn(16), d.enc()))
+			}
+		}
+		// the error paths of conf.Load: no file, a directory, an empty file, for every extension
+		if g.r.Chance(1, 2) {
+			ops = append(ops, fmt.Sprintf("fmiss %s %d %s %s", g.r.PickS(c17Exts...), g.r.Intn(3), g.r.PickS("Load", "LoadConfig"),
+				g.r.PickS("missing", "dir", "empty", "empty")))
 		}
 		objDoc := func(mut int) *c17Doc {
 			d := g.docFor(t, mut, false)
@@ -1805,7 +1853,9 @@ func c17GenSections(r *verifh.Rng) []verifh.Section {
 		// concurrent loads of DIFFERENT documents through the conf and mapping entry points (and conf.Load on files,
 		// UseEnv on every second one): every result must be the one the same call gives alone
 		if i%2 == 0 {
+			g.big = bigPct / 4
 			ops = append(ops, c17ParOp(g, objDoc, g.r.Pick(4, 8, 16), g.r.Pick(20, 40)))
+			g.big = bigPct
 		}
 		// the same call again, later in the same process, after calls with other option sets: the result must be
 		// the same (options, caches and defaults of earlier calls must not reach a later one)
@@ -1876,6 +1926,36 @@ func TestVerifC17Child(t *testing.T) {
 
 // c17RunChild runs `type` + one op in a child process of the (race-built) test binary and reports whether the race
 // detector fired there.
+// c17MapOpts: "<bits>" = the options of the bits in ascending order; "<bits>r" = in descending order, each one twice.
+func c17MapOpts(tok string) ([]mapping.UnmarshalOption, int, bool) {
+	rev := strings.HasSuffix(tok, "r")
+	n, err := strconv.Atoi(strings.TrimSuffix(tok, "r"))
+	if err != nil || n < 0 || n > 15 {
+		return nil, 0, false
+	}
+	var opts []mapping.UnmarshalOption
+	if n&1 != 0 {
+		opts = append(opts, mapping.WithCanonicalKeyFunc(strings.ToLower))
+	}
+	if n&2 != 0 {
+		opts = append(opts, mapping.WithStringValues())
+	}
+	if n&4 != 0 {
+		opts = append(opts, mapping.WithFromArray())
+	}
+	if n&8 != 0 {
+		opts = append(opts, mapping.WithOpaqueKeys())
+	}
+	if rev {
+		var out []mapping.UnmarshalOption
+		for i := len(opts) - 1; i >= 0; i-- {
+			out = append(out, opts[i], opts[i])
+		}
+		opts = out
+	}
+	return opts, n, true
+}
+
 func c17RunChild(typeOp string, op []string) string {
 	cmd := exec.Command(os.Args[0], "-test.run", "^TestVerifC17Child$", "-test.count=1")
 	cmd.Env = append(os.Environ(), "C17_CHILD_OPS="+typeOp+"\n"+strings.Join(op, " "), "GORACE=halt_on_error=0 atexit_sleep_ms=0")
@@ -1911,6 +1991,56 @@ func c17DecodePar(rt reflect.Type, f func(ptr any) error) (out string) {
 	b.WriteString("ok:")
 	c17DumpVal(ptr.Elem(), &b)
 	return b.String()
+}
+
+var c17ReaderModes = []string{"plain", "onebyte", "zero", "cut", "short", "errfirst", "tail", "panic", "panicstr"}
+
+var errC17Reader = fmt.Errorf("c17: reader failed")
+
+// c17Reader: the caller's io.Reader with one of the behaviours an io.Reader may show.
+type c17Reader struct {
+	data  []byte
+	pos   int
+	mode  string
+	calls int
+}
+
+func (r *c17Reader) Read(p []byte) (int, error) {
+	r.calls++
+	limit, chunk := len(r.data), 512
+	switch r.mode {
+	case "errfirst":
+		return 0, errC17Reader
+	case "panic":
+		panic(errC17Reader)
+	case "panicstr":
+		panic("c17 reader")
+	case "zero":
+		if r.calls%2 == 1 {
+			return 0, nil
+		}
+		chunk = 7
+	case "onebyte":
+		chunk = 1
+	case "cut", "short": // half of the content, then an error (cut) / a clean io.EOF (short: a truncated stream)
+		limit = len(r.data) / 2
+	}
+	if r.pos >= limit {
+		if r.mode == "cut" || r.mode == "tail" {
+			return 0, errC17Reader
+		}
+		return 0, io.EOF
+	}
+	n := limit - r.pos
+	if n > chunk {
+		n = chunk
+	}
+	if n > len(p) {
+		n = len(p)
+	}
+	copy(p, r.data[r.pos:r.pos+n])
+	r.pos += n
+	return n, nil
 }
 
 var c17ParAPIs = []string{"J", "Y", "T", "MY", "MT", "FL"}
@@ -2171,24 +2301,15 @@ func c17NewStep(t *testing.T) func(op []string) string {
 			if rt == nil {
 				return "no-type"
 			}
-			bits, style := verifh.Atoi(op[1]), verifh.Atoi(op[2])
+			opts, bits, okb := c17MapOpts(op[1])
+			if !okb {
+				return "bad-op"
+			}
+			style := verifh.Atoi(op[2])
 			p := &c17Parser{s: op[3]}
 			d := p.doc()
 			if p.i != len(p.s) {
 				return "bad-op"
-			}
-			var opts []mapping.UnmarshalOption
-			if bits&1 != 0 {
-				opts = append(opts, mapping.WithCanonicalKeyFunc(strings.ToLower))
-			}
-			if bits&2 != 0 {
-				opts = append(opts, mapping.WithStringValues())
-			}
-			if bits&4 != 0 {
-				opts = append(opts, mapping.WithFromArray())
-			}
-			if bits&8 != 0 {
-				opts = append(opts, mapping.WithOpaqueKeys())
 			}
 			js, ys := d.renderJSON(style), d.renderYAML(style)
 			ts, tok := d.renderTOML(style)
@@ -2211,6 +2332,80 @@ func c17NewStep(t *testing.T) func(op []string) string {
 			}
 			out = append(out, c17AliasTok())
 			return strings.Join(out, " ")
+		case "mrd":
+			// mrd <mode> <bits> <style> <doc>: the reader entry points on a reader with behaviour <mode>, next to the bytes ones
+			if len(op) != 5 {
+				return "bad-op"
+			}
+			if rt == nil {
+				return "no-type"
+			}
+			mode := op[1]
+			known := false
+			for _, m := range c17ReaderModes {
+				known = known || m == mode
+			}
+			opts, _, okb := c17MapOpts(op[2])
+			if !known || !okb {
+				return "bad-op"
+			}
+			style := verifh.Atoi(op[3])
+			p := &c17Parser{s: op[4]}
+			d := p.doc()
+			if p.i != len(p.s) {
+				return "bad-op"
+			}
+			js, ys := d.renderJSON(style), d.renderYAML(style)
+			ts, tok := d.renderTOML(style)
+			rd := func(s string) io.Reader { return &c17Reader{data: []byte(s), mode: mode} }
+			out := []string{
+				"JB=" + c17Decode(rt, func(v any) error { return mapping.UnmarshalJsonBytes([]byte(js), v, opts...) }),
+				"JR=" + c17Decode(rt, func(v any) error { return mapping.UnmarshalJsonReader(rd(js), v, opts...) }),
+				"YB=" + c17Decode(rt, func(v any) error { return mapping.UnmarshalYamlBytes([]byte(ys), v, opts...) }),
+				"YR=" + c17Decode(rt, func(v any) error { return mapping.UnmarshalYamlReader(rd(ys), v, opts...) }),
+			}
+			if tok {
+				out = append(out,
+					"TB="+c17Decode(rt, func(v any) error { return mapping.UnmarshalTomlBytes([]byte(ts), v, opts...) }),
+					"TR="+c17Decode(rt, func(v any) error { return mapping.UnmarshalTomlReader(rd(ts), v, opts...) }))
+			} else {
+				out = append(out, "TB=skip", "TR=skip")
+			}
+			out = append(out, c17AliasTok())
+			return strings.Join(out, " ")
+		case "fmiss":
+			// fmiss <ext> <env 0/1/2> <Load|LoadConfig> <missing|dir|empty>: the error paths of the file-level API
+			if len(op) != 5 {
+				return "bad-op"
+			}
+			if rt == nil {
+				return "no-type"
+			}
+			file := filepath.Join(t.TempDir(), "conf"+op[1])
+			switch op[4] {
+			case "missing":
+			case "dir":
+				if err := os.Mkdir(file, 0o700); err != nil {
+					return "io-error"
+				}
+			case "empty":
+				if err := os.WriteFile(file, nil, 0o600); err != nil {
+					return "io-error"
+				}
+			default:
+				return "bad-op"
+			}
+			var opts []Option
+			for k := 0; k < verifh.Atoi(op[2]); k++ {
+				opts = append(opts, UseEnv())
+			}
+			load := Load
+			if op[3] == "LoadConfig" {
+				load = LoadConfig
+			} else if op[3] != "Load" {
+				return "bad-op"
+			}
+			return c17Decode(rt, func(v any) error { return load(file, v, opts...) }) + " " + c17AliasTok()
 		case "cload":
 			if len(op) != 3 {
 				return "bad-op"
@@ -2270,7 +2465,7 @@ func c17NewStep(t *testing.T) func(op []string) string {
 			if rt == nil {
 				return "no-type"
 			}
-			ext, useEnv, api, style := op[1], op[2] == "1", op[3], verifh.Atoi(op[4])
+			ext, useEnv, api, style := op[1], op[2] != "0", op[3], verifh.Atoi(op[4])
 			p := &c17Parser{s: op[5]}
 			d := p.doc()
 			if p.i != len(p.s) {
@@ -2296,6 +2491,9 @@ func c17NewStep(t *testing.T) func(op []string) string {
 			}
 			var opts []Option
 			if useEnv {
+				opts = append(opts, UseEnv())
+			}
+			if op[2] == "2" {
 				opts = append(opts, UseEnv())
 			}
 			load := Load
@@ -2338,7 +2536,21 @@ func c17NewStep(t *testing.T) func(op []string) string {
 					res += " M=diff"
 				}
 			}
-			return res + " " + c17AliasTok()
+			// D: the loader of the format called directly on the (expanded, when UseEnv) content
+			dc := content
+			if useEnv {
+				dc = os.ExpandEnv(content)
+			}
+			direct := "noloader"
+			switch strings.ToLower(ext) {
+			case ".toml":
+				direct = c17Decode(rt, func(v any) error { return LoadFromTomlBytes([]byte(dc), v) })
+			case ".yaml", ".yml":
+				direct = c17Decode(rt, func(v any) error { return LoadFromYamlBytes([]byte(dc), v) })
+			case ".json":
+				direct = c17Decode(rt, func(v any) error { return LoadFromJsonBytes([]byte(dc), v) })
+			}
+			return res + " D=" + direct + " " + c17AliasTok()
 		case "file":
 			if len(op) != 7 {
 				return "bad-op"
